@@ -18,6 +18,27 @@ fn main() {
     progs.push(("loop".into(), "begin while.true push.0 drop push.0 drop push.1 sub dup neq.0 end end".into(), vec![1, 9]));
     progs.push(("deep-outputs".into(), "begin push.1 push.2 push.3 end".into(), (1..=16).collect()));
     progs.push(("call".into(), "proc.foo push.7 add end begin push.1 call.foo swap drop end".into(), vec![5]));
+    // chiplet-dominated traces around a power of two: h hperm + m mem_load operations; one program per chiplets
+    // length in 2^6 - 3 ..= 2^6 + 2 (and 2^7 - 3 ..= 2^7 + 2 with `thorough`), selected by executing the candidates
+    {
+        let mut seen = std::collections::BTreeSet::new();
+        for h in 0..=14usize {
+            for m in 0..=17usize {
+                let src = format!("begin padw padw padw {} dropw dropw dropw {} end", "hperm ".repeat(h), (0..m).map(|i| format!("mem_load.{i} drop ")).collect::<String>());
+                let Ok(program) = Assembler::default().compile(&src) else { continue };
+                let Ok(trace) = execute(&program, StackInputs::default(), DefaultHost::default(), Default::default()) else { continue };
+                let s = trace.trace_len_summary();
+                // rows of the four chiplets (without the mandatory padding row)
+                let cl = s.chiplets_trace_len();
+                let c = cl.hash_chiplet_len() + cl.bitwise_chiplet_len() + cl.memory_chiplet_len() + cl.kernel_rom_len();
+                if c < s.main_trace_len() || c < s.range_trace_len() { continue; }
+                let near = |k: usize| c + 3 >= (1 << k) && c <= (1 << k) + 2;
+                if (near(6) || (thorough && near(7))) && seen.insert(c) {
+                    progs.push((format!("chiplets-{c}-hperm{h}-mem{m}"), src, vec![]));
+                }
+            }
+        }
+    }
     let presets: Vec<(&str, fn() -> ProvingOptions, u32)> = vec![
         ("96-regular", || ProvingOptions::with_96_bit_security(false), 96), ("96-recursive", || ProvingOptions::with_96_bit_security(true), 96),
         ("128-regular", || ProvingOptions::with_128_bit_security(false), 128), ("128-recursive", || ProvingOptions::with_128_bit_security(true), 128),
